@@ -48,10 +48,13 @@ def parts(tier):
     """(tag, harness, args, deadline_s)"""
     core = ["--handlers=1", "--nths=1"]
     if tier == "quick":
-        return [("d3-all-asan", "h_c09", ["--depth=3", "--maxconn=2"], 95),
-                ("d4-core-plain", "h_c09_plain", ["--depth=4", "--maxconn=2"] + core, 95)]
-    return [("d4-all-asan", "h_c09", ["--depth=4", "--maxconn=2"], 1250),
-            ("d5-core-plain", "h_c09_plain", ["--depth=5", "--maxconn=2"] + core, 850)]
+        return [("d3-all-plain", "h_c09_plain", ["--depth=3", "--maxconn=2"], 75),
+                ("d3-core-asan", "h_c09", ["--depth=3", "--maxconn=2"] + core, 55),
+                ("d4-core-plain", "h_c09_plain", ["--depth=4", "--maxconn=2"] + core, 75)]
+    return [("d4-all-plain", "h_c09_plain", ["--depth=4", "--maxconn=2"], 650),
+            ("d3-all-asan", "h_c09", ["--depth=3", "--maxconn=2"], 200),
+            ("d4-core-asan", "h_c09", ["--depth=4", "--maxconn=2"] + core, 600),
+            ("d5-core-plain", "h_c09_plain", ["--depth=5", "--maxconn=2"] + core, 800)]
 
 def run(ck):
     exes = build(ck)
